@@ -462,7 +462,7 @@ func (e *Env) RUnquoteValidated() {
 						break
 					}
 					if is, ok := later.(*ast.IfStmt); ok {
-						if checks, _ := condChecksNonNil(info, is.Cond, errVar); checks {
+						if _, exact := condChecksNonNil(info, is.Cond, errVar); exact {
 							if okB, _ := errBranchOK(info, is.Body.List, errVar); okB {
 								validated = true
 							}
